@@ -38,7 +38,20 @@ OVERRIDES = ["raise", "no-raise", "stop", "no-stop", "fail", "no-fail", "print",
 CLEAN_LINE_MATCHES = {"arg_match": True, "exc_match": True, "exc_value": True, "arg_type": True, "rule": True, "py_exc": True, "nested_when": True, "nested_not": False}
 
 
-def provoker(kind, j):
+def provoker(kind, j, deco=None):
+    if deco == "empty_term":
+        # the same provokers with an empty-string term somewhere in the erroring subtree
+        # (the error context of a handled error is the JSON of that subtree)
+        return {
+            "exc_match": 'simfault("s")',
+            "exc_value": '@v = simfaultv("s")',
+            "arg_type": f'@s = add(#n{j}, length(""))',
+            "rule": f'date(#w{j}, "%Y")',
+            "py_exc": f'@t = mod(#n{j}, add(#z{j}, length("")))',
+            "nested_when": f'yes() -> @x = add(#n{j}, length(""))',
+            "nested_not": 'not(simfault("s"))',
+            "arg_match": f'between(#n{j}, length(""), 99)',
+        }[kind]
     return {
         "exc_match": 'simfault("s")',
         "exc_value": '@v = simfaultv("s")',
@@ -121,6 +134,7 @@ def generate(rng, i, tier):
     return {
         "seed": rng.getrandbits(32),
         "policy": pol,
+        "deco": "empty_term" if rng.random() < 0.2 else None,
         "tail": tail,
         "kind": kind,
         "nrec": nrec,
@@ -146,6 +160,8 @@ def reductions(sc):
         yield with_(sc, override=None)
     if sc.get("tail"):
         yield with_(sc, tail=None)
+    if sc.get("deco"):
+        yield with_(sc, deco=None)
     for j, F in enumerate(sc["planted"]):
         for l in F:
             c = with_(sc)
@@ -293,7 +309,7 @@ def member_text(sc, j, file=""):
         head += f" validation-mode:{ov['value']}"
     t = sc.get("tail")
     tail = f" line_number() == {t['line']} -> {t['kind']}()" if t else ""
-    return f'~{head}~ ${file}[{sc["scan"]}][ push("pre", line_number()) {provoker(sc["kind"], j)}{tail} push("post", line_number()) ]'
+    return f'~{head}~ ${file}[{sc["scan"]}][ push("pre", line_number()) {provoker(sc["kind"], j, sc.get("deco"))}{tail} push("post", line_number()) ]'
 
 
 def execute(sc):
@@ -425,6 +441,7 @@ def execute(sc):
             for l in F:
                 pos.append("first" if S and l == S[0] else "last" if S and l == S[-1] else "after_blank" if (l - 1) in sc["blanks"] else "mid")
         out.sig = [sc["policy"], sc["kind"], how, sorted(set(pos)), facts["override"], len(sc["planted"]), sc["tail"]["kind"] if sc.get("tail") else None]
+        out.probe("erroring subtree contains an empty-string term", bool(sc.get("deco")))
         out.probe("stop()/skip() later on an offending line", bool(sc.get("tail")) and any(sc["tail"]["line"] in F for F in sc["planted"]))
         out.nontrivial = evaluated_any
         out.probe("offending line is the last scanned line", "last" in pos)
